@@ -1212,14 +1212,14 @@ class Vector():
 			return self.copy((c.max() for c in self.cols()), name=None).T
 		# Exclude None values from max
 		non_none = [v for v in self._underlying if v is not None]
-		return max(non_none) if non_none else None
+		return _extreme(non_none, max) if non_none else None
 
 	def min(self):
 		if self.ndims() == 2:
 			return self.copy((c.min() for c in self.cols()), name=None).T
 		# Exclude None values from min
 		non_none = [v for v in self._underlying if v is not None]
-		return min(non_none) if non_none else None
+		return _extreme(non_none, min) if non_none else None
 
 	def sum(self):
 		if self.ndims() == 2:
@@ -1801,6 +1801,17 @@ class _String(Vector):
 	def after_last(self, sep):
 		"""Return the part of each string after the last occurrence of sep."""
 		return Vector(tuple((s.rpartition(sep)[2] if s is not None else None) for s in self._underlying))
+
+
+def _extreme(values, pick):
+	"""pick (min or max) of values, none of which is None. A <datetime> vector may hold plain dates
+	(the date-to-datetime widening), which Python cannot order against datetimes: in such a mix a
+	date is compared as that day at midnight - as in comparisons and sort_by - and the element
+	itself is returned."""
+	try:
+		return pick(values)
+	except TypeError:
+		return pick(values, key=_at_midnight)
 
 
 def _at_midnight(x):
